@@ -81,8 +81,11 @@ Definition y_outcomes (s : scen) : list (bool * list nat * nat) :=
       map (finish post order 400)
           (cands (40 * tb + 300) (run F fresh (pre ++ session p)) t0 tb blocked)
   | SExpired p =>
+      (* the race in EvalWithContext: stop() before Execute refreshes the root frame (everything runs),
+         or after it (nothing runs) *)
       let s1 := run F fresh [ABegin; AStop] in
-      [outcome s1 (settle (do_action F s1 (AExecute p)) [0] 400)]
+      let s1' := run F fresh [ABegin; AExecute p; AStop] in
+      [outcome s1 (settle (do_action F s1 (AExecute p)) [0] 400); outcome s1' (settle s1' [0] 400)]
   | SConc _ => []
   end.
 
@@ -124,7 +127,8 @@ Inductive ckind :=
 Inductive hev :=
 | HDefine     (* clo = func ... : the variable receives a new function literal *)
 | HUse (k : dkind) (v : via)
-| HCancel (c : ckind).
+| HCancel (c : ckind)
+| HEvalCtx.   (* an EvalWithContext of something trivial that is not cancelled *)
 
 Definition use_body (k : dkind) : nat :=
   match k with KNamed => 4 | KMethod => 5 | KClosVar => 6 | KMethVal => 7 | KChanFn => 14 end.
@@ -172,6 +176,7 @@ Fixpoint y_hist (st : state) (h : list hev) : list bool :=
   | HDefine :: h' => y_hist (solo F10 (do_action F10 st (AExecute [PRoot 8])) (nthreads st) (quiet 6)) h'
   | HUse k v :: h' => let '(st', r) := y_use st k v in r :: y_hist st' h'
   | HCancel c :: h' => y_hist (y_cancel st c) h'
+  | HEvalCtx :: h' => y_hist (run F10 st ([ABegin; AExecute [PRoot 12]] ++ alone (nthreads st) 6)) h'
   end.
 
 (** G: a use behaves as it did before any cancellation *)
